@@ -111,6 +111,115 @@ theorem C17_restart {K : Type} [DecidableEq K] (H : ByteArray → K) (hH : Funct
     rw [this, h2.length_eq]
     simp [Mgr.empty]
 
+/-! ### the cache is written at ANY moment a write can really happen
+
+Histories (`Op`, `Model/Cache.lean`): `add()` and `remove()` split at their suspension points (the
+delivery of `TransferAddedEvent`; the state listeners of the abort transition, transfer still listed;
+the delivery of `TransferRemovedEvent`, transfer detached), any number of them in progress at once,
+attribute changes, `write_cache()` and the end of the process at every point in between. The ghost
+lists say what the user had been told when the cache was written. -/
+
+/-- **What the user was told is what the manager lists — at every point of every history.** An identity
+whose addition has been reported (and whose removal has not been asked for since) is listed, exactly
+once; an identity whose removal has been reported (and whose addition has not been asked for since)
+is not listed. So whatever `write_cache()` is handed, at whatever moment, agrees with the reports. -/
+theorem C17_reports_match_list {K : Type} [DecidableEq K] (H : ByteArray → K) (s₀ : Sys K) (h₀ : GhostInv s₀)
+    (ops : List Op) :
+    let s := run H s₀ ops
+    (s.mgr.transfers.map ident).Nodup ∧ (∀ i ∈ s.there, i ∈ s.mgr.transfers.map ident) ∧
+      (∀ i ∈ s.gone, i ∉ s.mgr.transfers.map ident) := by
+  obtain ⟨a, b, c⟩ := inv_run H ops h₀
+  exact ⟨a, b, c⟩
+
+/-- **Restart after a write at any point.** Take any history `ops₁` (operations suspended anywhere),
+write the cache *there*, let anything else happen that does not write again (`ops₂`: operations
+resume, new ones start, attributes change), and end the process. The new manager then holds exactly
+the transfers that were listed at the moment of the write (round-tripped and repaired), each once —
+in particular every transfer whose addition had been reported by then, and none whose removal had
+been reported by then — and nothing is left suspended. Over *any* database the history started from. -/
+theorem C17_restart_any_write {K : Type} [DecidableEq K] (H : ByteArray → K) (hH : Function.Injective H)
+    (s₀ : Sys K) (h₀ : GhostInv s₀) (ops₁ ops₂ : List Op) (hq : ∀ o ∈ ops₂, o.quiet = true) :
+    let w := run H s₀ ops₁
+    let s := run H s₀ (ops₁ ++ [.store] ++ ops₂ ++ [.restart])
+    s.mgr.transfers.Perm (w.mgr.transfers.map fun t => attach mgrId (repair (canon t)).1) ∧
+    (s.mgr.transfers.map ident).Nodup ∧
+    (∀ i ∈ w.there, i ∈ s.mgr.transfers.map ident) ∧
+    (∀ i ∈ w.gone, i ∉ s.mgr.transfers.map ident) ∧
+    s.mgr.addedEvents = w.mgr.transfers.length ∧ s.pending = [] := by
+  intro w s
+  have hw : GhostInv w := inv_run H ops₁ h₀
+  obtain ⟨m', hload, hperm, hadd, _⟩ := C17_restart H hH w.db w.mgr.transfers hw.nodup mgrId
+  -- the database at the end of the process is the one written at `w`
+  have hdb : (run H (step H w .store).1 ops₂).db = write H w.db w.mgr.transfers := by
+    rw [quiet_run_db H ops₂ _ hq]; rfl
+  have hs : s = (doRestart (run H (step H w .store).1 ops₂)).1 := by
+    show run H s₀ (ops₁ ++ [.store] ++ ops₂ ++ [.restart]) = _
+    rw [run_append, run_append, run_append]
+    rfl
+  have hm : s.mgr = m' ∧ s.pending = [] := by
+    rw [hs]
+    unfold doRestart
+    rw [hdb, hload]
+    exact ⟨rfl, rfl⟩
+  have hids : (s.mgr.transfers.map ident).Perm (w.mgr.transfers.map ident) := by
+    rw [hm.1]
+    have := hperm.map ident
+    rw [List.map_map] at this
+    refine this.trans (List.Perm.of_eq ?_)
+    apply List.map_congr_left
+    intro t _
+    simp only [Function.comp, ident_attach, ident_repair, ident_canon]
+  refine ⟨hm.1 ▸ hperm, hids.nodup_iff.2 hw.nodup, ?_, ?_, hm.1 ▸ hadd, hm.2⟩
+  · intro i hi; exact hids.mem_iff.2 (hw.there i hi)
+  · intro i hi h; exact hw.gone i hi (hids.mem_iff.1 h)
+
+/-- **A transfer whose removal is in progress.** While `remove()` is suspended in a state listener of
+its abort transition the transfer is still listed (a write there keeps it, with the aborted
+attributes); once `TransferRemovedEvent` is being delivered it is not (a write there drops it). -/
+theorem C17_remove_phases {K : Type} [DecidableEq K] (H : ByteArray → K) (s : Sys K) (h : GhostInv s)
+    (id : Ident) (now : Nat) :
+    ((step H s (.rmCall id now)).2 = .aborting →
+      id ∈ (step H s (.rmCall id now)).1.mgr.transfers.map ident ∧
+      (step H (step H s (.rmCall id now)).1 (.rmStep id)).2 = .announcing) ∧
+    ((step H s (.rmCall id now)).2 = .announcing →
+      id ∉ (step H s (.rmCall id now)).1.mgr.transfers.map ident ∧ id ∈ (step H s (.rmCall id now)).1.gone) := by
+  simp only [step]
+  unfold doRmCall
+  split
+  · exact ⟨(fun h => nomatch h), (fun h => nomatch h)⟩
+  · rename_i q hq
+    have hqi : ident q = id := by simpa using List.find?_some hq
+    have hqm : q ∈ s.mgr.transfers := List.mem_of_find?_eq_some hq
+    split
+    · exact ⟨(fun h => nomatch h), (fun h => nomatch h)⟩
+    · rename_i hrem
+      simp only
+      split
+      · rename_i q' hq'
+        have hi' : ident q' = id := (abortEffect_ident hq').trans hqi
+        refine ⟨fun _ => ⟨?_, ?_⟩, (fun h => nomatch h)⟩
+        · simp only [if_true]
+          rw [ids_replace hi']
+          exact hqi ▸ List.mem_map_of_mem hqm
+        · simp only [if_true]
+          unfold doRmStep
+          have hnone : ∀ p ∈ s.pending, ¬ (p.id = id ∧ p.phase ≠ .adding) := by
+            intro p hp hc
+            apply hrem
+            exact List.any_eq_true.2 ⟨p, hp, by simpa using hc⟩
+          have hf : (s.pending ++ [({ id := id, phase := .aborting, tainted := false } : Pending)]).find?
+              (fun p => p.id = id ∧ p.phase ≠ .adding) =
+                some ({ id := id, phase := .aborting, tainted := false } : Pending) := by
+            rw [List.find?_append, List.find?_eq_none.2 (by simpa using hnone)]
+            simp
+          simp only [hf]
+          rfl
+      · refine ⟨(fun h => nomatch h), fun _ => ⟨?_, ?_⟩⟩
+        · simp only [if_true, detach]
+          exact not_mem_ids_eraseP id _ h.nodup
+        · simp only [if_true, detach]
+          exact List.mem_cons_self
+
 /-- **Repair table** (finite: every persisted state × `is_transfered()`): was-initialising ↦ QUEUED,
 was-transferring ↦ COMPLETE if all bytes had arrived else INCOMPLETE, every other state unchanged;
 `repair` follows the table; and "in progress" (`is_processing`) means exactly
@@ -253,5 +362,15 @@ example : Function.Injective (id : ByteArray → ByteArray) := fun _ _ h => h
 example : ∃ m', (Mgr.empty 1).load ([((0 : Nat), persist exA), (1, persist { exB with dir := .upload })]) = some m' ∧
     (eligible (fun _ => false) m'.transfers).1.length = 1 ∧ (eligible (fun _ => false) m'.transfers).2.length = 1 := by
   refine ⟨_, rfl, ?_, ?_⟩ <;> decide
+
+/-- a history with operations suspended in listeners: `exB`'s removal is being announced (reported gone, not
+listed), `exA`'s addition has been reported while its `add()` is still suspended (reported there, listed) -/
+example :
+    let s := run (id : ByteArray → ByteArray) Sys.init
+      [.add exB, .addCall exA, .rmCall (ident exB) 1000, .rmStep (ident exB)]
+    s.there = [ident exA] ∧ s.gone = [ident exB] ∧ s.pending.length = 2 ∧ (s.mgr.transfers.map ident) = [ident exA] := by
+  decide
+example : GhostInv (Sys.init : Sys ByteArray) := inv_init
+example : Op.quiet (.rmStep (ident exA)) = true ∧ Op.quiet (.addCall exA) = true ∧ Op.quiet .store = false := by decide
 
 end AioslskVerif.C17
